@@ -40,6 +40,10 @@ class RecursiveChecker(ConversionsVisitor[Conv, Any], ObjectVisitor[Any]):
     def __init__(self, default_conversion: DefaultConversion):
         super().__init__(default_conversion)
         self._cache = recursion_cache(self.__class__)
+        # Types cached as recursive by this checker; recursive entries of the shared
+        # cache cannot be used to skip a type, because they can come from the
+        # unfinished visit of another checker, running in another thread.
+        self._cached_recursive: Set[RecursionKey] = set()
         self._recursive: Dict[RecursionKey, Set[RecursionKey]] = {}
         self._all_recursive: Set[RecursionKey] = set()
         self._guard: List[RecursionKey] = []
@@ -80,7 +84,10 @@ class RecursiveChecker(ConversionsVisitor[Conv, Any], ObjectVisitor[Any]):
 
     def visit(self, tp: AnyType):
         rec_key = (tp, self._conversion)
-        if rec_key in self._cache:
+        # A type cached as not recursive cannot be part of a cycle, so it can be skipped;
+        # but one cached as recursive by another checker tells nothing about the types
+        # currently visited, which could then be wrongly cached as not recursive.
+        if rec_key in self._cached_recursive or self._cache.get(rec_key) is False:
             pass
         elif rec_key in self._guard_indices:
             recursive = self._guard[self._guard_indices[rec_key] :]
@@ -97,6 +104,7 @@ class RecursiveChecker(ConversionsVisitor[Conv, Any], ObjectVisitor[Any]):
             if rec_key in self._recursive:
                 for key in self._recursive[rec_key]:
                     self._cache[key] = True
+                    self._cached_recursive.add(key)
                 assert self._cache[rec_key]
             elif rec_key not in self._all_recursive:
                 self._cache[rec_key] = False
@@ -130,7 +138,10 @@ def is_recursive(
 ) -> bool:
     cache, rec_key = recursion_cache(checker_cls), (tp, conversion)
     if rec_key not in cache:
-        checker_cls(default_conversion).visit_with_conv(tp, conversion)
+        checker = checker_cls(default_conversion)
+        checker.visit_with_conv(tp, conversion)
+        # concurrent first calls of recursion_cache can return different dicts
+        cache = checker._cache
     return cache[rec_key]
 
 
